@@ -34,6 +34,6 @@ theorem py_fdwra_stop : Py.fdwra_stop.ok = false ∨
       intro a; rw [eqA_real]; simp
     simp only [Py.fdwra_stop, e, absA_real, lit_real]
     norm_num
-    split_ifs <;> first | rfl | (exfalso; tauto) | (simp_all; done) | (simp_all [abs_sub_comm]; done) | (simp only [abs_sub_comm] at *; tauto)
+    split_ifs <;> py_logic
 
 end HV.Bridge
